@@ -41,6 +41,11 @@ class CrashFile(object):
         if data:
             self.events.append(("write", data))
 
+    def writelines(self, lines):
+        # io.IOBase.writelines: one write() call per item, nothing atomic about it
+        for line in lines:
+            self.write(line)
+
     def flush(self):
         self.events.append(("flush",))
 
